@@ -185,11 +185,13 @@ impl<'a> G<'a> {
         let dst = self.pick_dst();
         let seq = self.next_seq();
         let mut f = vec![ctrl(seq)];
+        let mut note: Option<String> = None;
         let max_items = if self.r.chance(1, 10) { 30 } else { 3 };
         match self.r.below(40) {
             0..=9 => {
                 f.push(1);
                 f.extend(read_headers(&mut self.r));
+                note = Some("@wf".into());
             }
             10..=13 => {
                 // SELECT (remembered so that a matching OPERATE can follow)
@@ -197,6 +199,7 @@ impl<'a> G<'a> {
                 let o = control_objects(&mut self.r, max_items);
                 f.extend(&o);
                 self.last_select = Some((seq, o));
+                note = Some("@wf".into());
             }
             14..=17 => {
                 // OPERATE: matching the last SELECT, or perturbed
@@ -222,17 +225,22 @@ impl<'a> G<'a> {
             18..=20 => {
                 f.push(5);
                 f.extend(control_objects(&mut self.r, max_items));
+                note = Some("@wf".into());
             }
             21 => {
                 f.push(6);
                 f.extend(control_objects(&mut self.r, max_items));
+                note = Some("@wf".into());
             }
             22..=25 => {
                 // WRITE
                 f.push(2);
                 let n = if self.r.chance(2, 3) { 1 } else { 2 };
+                let mut kinds: Vec<u64> = Vec::new();
                 for _ in 0..n {
-                    match self.r.below(9) {
+                    let kind = self.r.below(9);
+                    kinds.push(kind);
+                    match kind {
                         0 | 1 => f.extend_from_slice(&[0x50, 0x01, 0x00, 0x07, 0x07, 0x00]),
                         2 => f.extend_from_slice(&[0x50, 0x01, 0x00, 0x07, 0x07, 0x01]),
                         3 => f.extend_from_slice(&[0x50, 0x01, 0x00, 0x04, 0x04, 0x00]),
@@ -250,15 +258,28 @@ impl<'a> G<'a> {
                         _ => f.extend_from_slice(&[0x3c, 0x01, 0x06]),
                     }
                 }
+                let rejected = |k: &u64| matches!(*k, 2 | 3 | 4 | 7 | 8);
+                let accepted = |k: &u64| matches!(*k, 0 | 1);
+                if kinds.iter().any(rejected) {
+                    let last = kinds.last().unwrap();
+                    if rejected(last) {
+                        note = Some("@reject".into());
+                    } else if accepted(last) {
+                        note = Some("@reject d7".into());
+                    }
+                }
             }
             26 => {
                 f.push(*self.r.pick(&[7u8, 8, 9, 10, 11, 12]));
-                match self.r.below(4) {
+                let hk = self.r.below(4);
+                match hk {
                     0 => f.extend_from_slice(&[0x14, 0x00, 0x06]),
                     1 => f.extend_from_slice(&[0x14, 0x00, 0x00, 0x01, 0x04]),
                     2 => f.extend_from_slice(&[0x14, 0x00, 0x01, 0x01, 0x00, 0x00, 0x01]),
                     _ => f.extend_from_slice(&[0x1e, 0x00, 0x06]),
                 }
+                let fc = f[1];
+                note = Some(if fc == 11 || fc == 12 || hk == 3 { "@reject".into() } else { "@wf".into() });
             }
             27..=29 => {
                 f.push(if self.r.chance(1, 2) { 20 } else { 21 });
@@ -269,16 +290,21 @@ impl<'a> G<'a> {
                 }
                 if self.r.chance(1, 8) {
                     f.extend_from_slice(&[0x3c, 0x01, 0x06]);
+                    note = Some("@reject".into());
                 }
             }
             30 => {
                 f.push(*self.r.pick(&[23u8, 24, 13, 14]));
                 if self.r.chance(1, 6) {
                     f.extend_from_slice(&[0x3c, 0x01, 0x06]);
+                    note = Some("@reject".into());
                 }
             }
             31 => f.push(24),
-            32 => f.push(*self.r.pick(&[15u8, 16, 17, 18, 19, 22, 25, 26, 27, 28, 29, 30])),
+            32 => {
+                f.push(*self.r.pick(&[15u8, 16, 17, 18, 19, 22, 25, 26, 27, 28, 29, 30]));
+                note = Some("@reject".into());
+            }
             33 => f.push(*self.r.pick(&[31u8, 70, 128, 131, 255])), // unknown function codes
             34 => {
                 // a response function code sent as a request
@@ -298,7 +324,11 @@ impl<'a> G<'a> {
                 // malformed objects under a function that takes objects
                 f.push(*self.r.pick(&[1u8, 2, 3, 4, 5, 6, 7, 20, 21]));
                 f.extend(malformed_objects(&mut self.r));
+                note = Some("@reject".into());
             }
+        }
+        if let Some(n) = note {
+            self.line(&n);
         }
         self.rx(src, dst, f);
     }
